@@ -97,10 +97,12 @@ _p("C19", ["c05_tokens"], ["static.c19_scan", "determinism"],
    "Deductive/syntactic: the finite list of nondeterminism sources (set constructions, random, id, hash) is recomputed from the tree on every run and must equal "
    "the reviewed list; membership-only sets are checked (syntactically) never to be iterated; the shapes prefix is proved to be the first free default, so "
    "random is reached only when all four are taken. Byte-identity across processes with different hash seeds: bounded (determinism.py, fresh subprocesses).")
-_p("C20", ["c20_config"], [],
+_p("C20", ["c20_config"], ["config"],
    "Loop-free validation code of Shaper.__init__ / shex_graph verified against the reference predicate of the statement over fully symbolic arguments "
    "(presence flags and values); one obligation per program path and exception edge, so the discharge is a complete proof over the whole argument product. "
-   "Assumed: building the remote graph / parsing a well-formed shape map does not raise.", level="proof", min_obligations=300, crosscheck=True)
+   "Assumed: building the remote graph / parsing a well-formed shape map / building the graph that resolves shape-map selectors does not raise; "
+   "that last part runs for real in the bounded stand-in (bounded/config.py: real constructor calls on real files, present-but-empty values, "
+   "compressions and formats against a reference predicate written from the statement), which is where the open finding lives.", level="proof", min_obligations=300, crosscheck=True)
 
 HOOK_COMMITS = []
 NOT_APPLICABLE = {}
